@@ -93,6 +93,9 @@ class NumbaProxy(object):
     def prange(self, *a):
         return self._owner.prange(*a)
 
+    def get_num_threads(self):
+        return int(self._owner.state["T"])
+
 
 class C15(object):
     id = "C15"
@@ -196,6 +199,11 @@ class C15(object):
                  [rnd.randint(0, 10 ** 7) for _ in range(n)],       # scI
                  [rnd.randrange(nfrm) for _ in range(n)]]           # frm
         T = rnd.choice([1, 2, 2, 3, 4, 5, 8, 16])
+        big_clean = None
+        if rnd.random() < 0.03:
+            # the renumbering step alone on a converged labelling of a table beyond 4096 2D peaks
+            big_clean = {"n": rnd.choice([4095, 4096, 4097, 4100, 5001, 8191]), "p_root": rnd.choice([0.02, 0.3, 0.9]),
+                         "seed": rnd.getrandbits(32)}
         return {"entry": "find_ND_labels", "n": n, "kind": kind, "edges": E, "props": props, "nfrm": nfrm,
                 "omega": [round(rnd.uniform(-180, 180), 3) for _ in range(nfrm)],
                 "dty": [round(rnd.uniform(-5, 5), 3) for _ in range(nfrm)],
@@ -203,7 +211,7 @@ class C15(object):
                 "T": T, "chunking": rnd.choice(["static", "static", "random"]), "cseed": rnd.getrandbits(32),
                 "strategy": rnd.choice(["random", "random", "pct", "rr", "rtc"]), "p_inv": rnd.choice([1, 2, 4, 16, 64]),
                 "quantum": rnd.choice([1, 2, 5]), "pct_d": rnd.choice([1, 2, 3]), "sseed": rnd.getrandbits(48),
-                "native": rnd.random() < 0.04, "layout": layout, "shape2": shape2,
+                "native": rnd.random() < 0.04, "layout": layout, "shape2": shape2, "big_clean": big_clean,
                 "idx_dtype": rnd.choice(["int64", "int64", "int64", "int32", "uint32", "uint16", "uint64"]),
                 "merge_calls": [rnd.random() < 0.5 for _ in range(rnd.choice([0, 0, 1, 2]))]}
 
@@ -261,7 +269,55 @@ class C15(object):
         return sim
 
     # ------------------------------------------------------------------ execution
+    def exec_big_clean(self, desc, ctx):
+        props = self.props
+        bc = desc["big_clean"]
+        n = bc["n"]
+        g = np.random.default_rng(bc["seed"])
+        root = np.arange(n)
+        isroot = g.random(n) < bc["p_root"]
+        isroot[0] = True
+        parents = (g.random(n) * np.arange(n)).astype(int)      # some earlier peak
+        for i in range(1, n):
+            if not isroot[i]:
+                root[i] = root[parents[i]]
+        labels = root.astype(np.int64).copy()
+        want = np.cumsum(isroot)[root] - 1
+        sched = pysched.Sched(desc["sseed"], strategy=desc["strategy"], p_inv=desc["p_inv"], quantum=max(50, desc["quantum"]),
+                              pct_d=desc["pct_d"], pct_est=40 * n, step_cap=400 * n + 400000, trace_files=[self.file],
+                              replay=desc.get("replay"), opcodes=False)
+        self.state = {"sched": sched, "T": desc["T"], "chunking": desc["chunking"], "rnd": random.Random(desc["cseed"]),
+                      "chunk": {}, "calls": {}, "permuted": 0}
+        saved = {nm: getattr(props, nm) for nm in self.sim_fns}
+        saved_numba = props.numba
+        viol, out = None, {}
+        try:
+            for nm in self.sim_fns:
+                setattr(props, nm, self.make_sim(nm))
+            props.numba = NumbaProxy(self.numba, self)
+            with contextlib.redirect_stdout(io.StringIO()):
+                try:
+                    out["n"] = sched.run(lambda: props.get_clean_labels(labels))
+                except (pysched.Deadlock, pysched.StepCap) as e:
+                    viol = {"class": "no-termination", "key": "ndmerge:no-termination", "detail": str(e)}
+        finally:
+            for nm, o in saved.items():
+                setattr(props, nm, o)
+            props.numba = saved_numba
+        if viol is None and (out["n"] is None or int(out["n"]) != int(isroot.sum()) or not np.array_equal(labels, want)):
+            bad = np.nonzero(labels != want)[0]
+            viol = {"class": "labels-not-0..n-1", "key": "ndmerge:labels-not-0..n-1",
+                    "detail": "get_clean_labels on a converged labelling of %d 2D peaks in %d groups (%d threads): %s groups reported, %d "
+                              "peaks carry another label than the rank of their group (first: peak %s)" %
+                              (n, int(isroot.sum()), desc["T"], out.get("n"), len(bad), bad[:1].tolist())}
+        meas = {"steps": sched.steps, "switches": sched.switches, "T": {str(desc["T"]): 1}, "graph_kind": {"big_clean": 1},
+                "permuted_prange_loops": self.state["permuted"], "native_conformance_runs": 0, "big_renumbering_runs": 1}
+        return {"digest": enginea.sha(sched.digest(), labels), "sig": "big_clean/%d/%s/%s" % (n, bc["seed"], desc["T"]),
+                "nontrivial": desc["T"] > 1, "viol": viol, "measures": meas}
+
     def execute(self, desc, ctx):
+        if desc.get("big_clean"):
+            return self.exec_big_clean(desc, ctx)
         props = self.props
         n = desc["n"]
         E = desc["edges"]
